@@ -188,9 +188,15 @@ def run(ctx: core.Ctx):
     try:
         log = []
 
+        fail_next = [False]
+
         class S(impl.ScriptSession):
             async def handle_query(self, sql, attrs):
                 log.append(sql)
+                if fail_next[0]:
+                    fail_next[0] = False
+                    from mysql_mimic.errors import MysqlError
+                    raise MysqlError("application refuses", 1064)
                 return None
 
         srv = impl.make_server(env, lambda: S(env, 0))
@@ -213,10 +219,13 @@ def run(ctx: core.Ctx):
             if holes is not None and nparams != holes:
                 witness = witness or dict(kind="prepare-count", template=tpl.decode("latin1"), announced=nparams, holes=holes)
             execs = []
-            for rep in range(2):
+            for rep in range(3):
                 pos = [pk.gen_param(rng, named=False, hostile=True) for _ in range(nparams)]
                 bufs = {}
-                if rep == 0:
+                # first execution: long data, and the application may fail it; second: fresh long data (the
+                # client's retry); third: inline values only
+                fail_next[0] = (rep == 0 and rng.random() < 0.5)
+                if rep in (0, 1):
                     for i, p in enumerate(pos):
                         if rng.random() < 0.35:
                             whole = bytes(rng.choice(b"ab'\\?;") for _ in range(rng.randint(0, 6)))
@@ -234,6 +243,13 @@ def run(ctx: core.Ctx):
                 nwire += 1
                 got = log[-1] if len(log) == n0 + 1 else None
                 execs.append((pos, bufs, got))
+                # the property itself, with the independent tokenizer: every hole holds exactly the supplied value
+                if holes is not None and got is not None and witness is None:
+                    eff = [pk.P(b"", pk.T_VAR_STRING, False, bufs[i]) if (i in bufs and not p.is_null()) else p for i, p in enumerate(pos)]
+                    why = oracle(tpl, nparams, eff, got)
+                    if why:
+                        witness = dict(kind="wire-execute", template=tpl.decode("latin1"), params=repr(pos), long_data=repr(bufs),
+                                       received=got, execution=rep + 1, problem=why)
             wcases.append((tpl, nparams, want, execs))
         terms, refs = [], []
         for tpl, nparams, want, execs in wcases:
